@@ -43,12 +43,13 @@ pub fn seed_inputs(target: &str) -> Vec<Vec<u8>> {
         ],
         "sigmf_archive" => {
             let mut out = Vec::new();
-            for order in 0..2 {
+            // data members: whole samples, a truncated last sample (cf32 = 8 bytes), nothing
+            for (order, dlen) in [(0usize, 64usize), (1, 64), (0, 13), (1, 67), (0, 5), (0, 0)] {
                 let mut buf = Vec::new();
                 {
                     let mut tb = tar::Builder::new(&mut buf);
                     let meta = br#"{"global":{"core:datatype":"cf32_le","core:version":"1.1.0"},"captures":[]}"#;
-                    let data = [0u8; 64];
+                    let data: Vec<u8> = (0..dlen).map(|i| (i * 37 + 11) as u8).collect();
                     let mut add = |name: &str, d: &[u8]| {
                         let mut h = tar::Header::new_gnu();
                         h.set_size(d.len() as u64);
@@ -193,7 +194,7 @@ impl Prop for C15 {
         }
     }
     fn rule(&self) -> String {
-        "generated per target (au_decode, hdlc_bits, il2p_bits(+sync tags), sigmf_meta, sigmf_archive, stream_to_pdu(+tag scripts), vec_to_stream, wpcr, midpointer, float_blocks {SymbolSync, ZeroCrossing, QuadratureDemod, FirFilter, FastFM, BinarySlicer on NaN/inf/subnormal/huge values}, sample_parse): uniformly random bytes, structured bytes (runs of 0x00/0xff/0x7e), and mutations (byte overwrite, truncation) of valid seed inputs (the encoder's AU stream, testdata/aprs.au, valid SigMF metadata, valid tar archives in both member orders); enumerated degenerate bursts and AU header field mutations; thorough adds coverage-guided libFuzzer+ASan campaigns on the same entry functions (/verif/harness/fuzz). The bytes are decoded into (parameters, content, drip schedule), fresh blocks are built, driven to quiescence under a step bound. Oracle inside the target: no unwind out of work()/constructor/parser (an Err is fine), no 6x idle 'Again', quiescence within the step bound; under libFuzzer additionally ASan silence. Non-trivial: input longer than 12 bytes (reaches past the first header/length checks) or an enumerated degenerate case; distinct = hash of the case.".into()
+        "generated per target (au_decode, hdlc_bits, il2p_bits(+sync tags), sigmf_meta, sigmf_archive, stream_to_pdu(+tag scripts), vec_to_stream, wpcr, midpointer, float_blocks {SymbolSync, ZeroCrossing, QuadratureDemod, FirFilter, FastFM, BinarySlicer on NaN/inf/subnormal/huge values}, sample_parse): uniformly random bytes, structured bytes (runs of 0x00/0xff/0x7e), and mutations (byte overwrite, truncation) of valid seed inputs (the encoder's AU stream, testdata/aprs.au, valid SigMF metadata, valid tar archives in both member orders, with whole, truncated and empty data members; every archive is opened with repeat 1, 2 and 0); enumerated degenerate bursts and AU header field mutations; thorough adds coverage-guided libFuzzer+ASan campaigns on the same entry functions (/verif/harness/fuzz). The bytes are decoded into (parameters, content, drip schedule), fresh blocks are built, driven to quiescence under a step bound. Oracle inside the target: no unwind out of work()/constructor/parser (an Err is fine), no 6x idle 'Again', a finite source with a drained output reaches EOF instead of stalling (a busy loop under the multithreaded runner), quiescence within the step bound; under libFuzzer additionally ASan silence. Non-trivial: input longer than 12 bytes (reaches past the first header/length checks) or an enumerated degenerate case; distinct = hash of the case.".into()
     }
     fn assumptions(&self) -> Vec<String> {
         vec![
